@@ -407,6 +407,15 @@ impl<'a> Selector<'a> {
         data.resize(jentry_offset + 4 * len, 0);
         while let Some(pos) = poses.pop_front() {
             let jentry = match pos {
+                // the root of a scalar value is a container position too,
+                // it must be written as a scalar entry, not nested as a container.
+                Position::Container((offset, length))
+                    if root.get(offset).map(|b| b & 0xE0) == Some(SCALAR_PREFIX) =>
+                {
+                    let (_, jentry) = be_u32(&root[offset + 4..])?;
+                    data.extend_from_slice(&root[offset + 8..offset + length]);
+                    jentry
+                }
                 Position::Container((offset, length)) => {
                     data.extend_from_slice(&root[offset..offset + length]);
                     CONTAINER_TAG | length as u32
